@@ -26,7 +26,6 @@ ASSUMPTIONS = [
 
 BIG = 400_000_000
 P = "jsontext"
-DCOV = ["accept", "refused-for-depth"]
 
 
 def obligations(tier):
@@ -34,18 +33,24 @@ def obligations(tier):
     L = []
     only = os.environ.get("C20_ONLY", "")
     # ---- depth: reading and formatting entry points; op/shape chosen by the solver (-1), a in [lo,hi]
-    # args: op, shape, aLo, aHi, holeLen, allowDup, fullRef
+    # args: op, shape, aLo, aHi, inner (concrete innermost text), holeLen (symbolic bytes after it), allowDup, fullRef
+    SH = ["arr", "obj", "mix", "mix2"]
+
+    def cov(shapes, refuse=True, reject=False):
+        c = ["accept/" + SH[x] for x in shapes] + (["refused-for-depth/" + SH[x] for x in shapes] if refuse else [])
+        return c + (["reject"] if reject else [])
     for fn, tag in (("VerifC20DepthRead", "read"), ("VerifC20DepthFormat", "format")):
         if q:
-            L.append(ob("depth/%s/ops=all/shapes=all/a=10000..10001/hole=0" % tag, P, fn, [-1, -1, 10000, 10001, 0, False, False], step_limit=BIG, covers=DCOV))
-            L.append(ob("depth/%s/ops=all/shape=arr/a=10000/hole=1" % tag, P, fn, [-1, 0, 10000, 10000, 1, False, False], step_limit=BIG, covers=["accept", "reject"]))
+            L.append(ob("depth/%s/ops=all/shapes=all/a=10000..10001/inner=0/hole=0" % tag, P, fn, [-1, -1, 10000, 10001, "0", 0, False, False], step_limit=BIG, covers=cov([0, 1, 2])))
+            L.append(ob("depth/%s/ops=all/shape=arr/a=10000/inner=/hole=1" % tag, P, fn, [-1, 0, 10000, 10000, "", 1, False, False], step_limit=BIG, covers=cov([0], False, True)))
         else:
             for d in (False, True):
-                L.append(ob("depth/%s/ops=all/shapes=all/a=9998..10002/hole=0/dup=%d/fullref" % (tag, d), P, fn, [-1, -1, 9998, 10002, 0, d, True], step_limit=BIG, covers=DCOV))
-                L.append(ob("depth/%s/ops=all/shapes=all/a=9999..10001/hole=1/dup=%d" % (tag, d), P, fn, [-1, -1, 9999, 10001, 1, d, False], step_limit=BIG, covers=DCOV + ["reject"]))
+                L.append(ob("depth/%s/ops=all/shapes=all/a=9998..10002/inner=0/hole=0/dup=%d/fullref" % (tag, d), P, fn, [-1, -1, 9998, 10002, "0", 0, d, True], step_limit=BIG, covers=cov([0, 1, 2])))
+                L.append(ob("depth/%s/ops=all/shapes=all/a=9999..10001/inner=/hole=1/dup=%d" % (tag, d), P, fn, [-1, -1, 9999, 10001, "", 1, d, False], step_limit=BIG, covers=cov([0, 1, 2], True, True)))
+            L.append(ob("depth/%s/ops=all/shape=arr/a=9999..10001/inner=/hole=0/fullref" % tag, P, fn, [-1, 0, 9999, 10001, "", 0, False, True], step_limit=BIG, covers=cov([0])))
             for sh in (0, 1, 2):
-                L.append(ob("depth/%s/ops=all/shape=%d/a=9999..10000/hole=2" % (tag, sh), P, fn, [-1, sh, 9999, 10000, 2, False, False], step_limit=BIG, covers=DCOV + ["reject"]))
-            L.append(ob("depth/%s/ops=all/shape=alt-obj-first/a=9999..10001/hole=0/fullref" % tag, P, fn, [-1, 3, 9999, 10001, 0, False, True], step_limit=BIG, covers=DCOV))
+                L.append(ob("depth/%s/ops=all/shape=%s/a=9999..10000/inner=/hole=2" % (tag, SH[sh]), P, fn, [-1, sh, 9999, 10000, "", 2, False, False], step_limit=BIG, covers=cov([sh], True, True)))
+            L.append(ob("depth/%s/ops=all/shape=mix2/a=9999..10001/inner=\"a\"/hole=0/fullref" % tag, P, fn, [-1, 3, 9999, 10001, '"a"', 0, False, True], step_limit=BIG, covers=cov([3])))
     # ---- depth: WriteToken pushes then one call
     if q:
         L.append(ob("depth/write/shapes=all/a=10000..10001", P, "VerifC20DepthWrite", [-1, 10000, 10001, False], step_limit=BIG, covers=["call-accepted", "call-refused", "push-refused"]))
